@@ -109,6 +109,20 @@ def run(ctx):
                       outcome_norm=_with_raise_args)
         _verdict(run, "C08.R2", lf, what, r, m)
 
+    from rules.common import crosscheck_many
+    crosscheck_many(ctx, "C08.R2", [
+        ("ZConfig.ConfigurationError.__init__", "configurationerror_init",
+         "ZConfig.ConfigurationError", "message and url are kept"),
+        ("ZConfig._ParseError.__init__", "parseerror_init",
+         "ZConfig._ParseError", "lineno, colno, url are kept"),
+        ("ZConfig.SchemaError.__init__", "schemaerror_init",
+         "ZConfig.SchemaError", "argument order url, lineno, colno"),
+        ("ZConfig.DataConversionError.__init__", "dataconversionerror_init",
+         "ZConfig.DataConversionError",
+         "carries the original exception, the value and (lineno, colno, "
+         "url)"),
+    ])
+
     # ------------------------------------------------------------------ R3
     before = len(run.obligations)
     c07._r2_positions(ctx)
